@@ -139,11 +139,13 @@ func (l *basicLoader) SetEntry(name px.TypedName, entry px.LoaderEntry) px.Loade
 		}
 
 		if lt, ok := old.Value().(px.Type); ok {
-			ob := bytes.NewBufferString(``)
-			lt.ToString(ob, px.PrettyExpanded, nil)
-			nb := bytes.NewBufferString(``)
-			nv.(px.Type).ToString(nb, px.PrettyExpanded, nil)
-			panic(px.Error(px.AttemptToRedefineType, issue.H{`name`: name, `old`: ob.String(), `new`: nb.String()}))
+			if nt, ok := nv.(px.Type); ok {
+				ob := bytes.NewBufferString(``)
+				lt.ToString(ob, px.PrettyExpanded, nil)
+				nb := bytes.NewBufferString(``)
+				nt.ToString(nb, px.PrettyExpanded, nil)
+				panic(px.Error(px.AttemptToRedefineType, issue.H{`name`: name, `old`: ob.String(), `new`: nb.String()}))
+			}
 		}
 		panic(px.Error(px.AttemptToRedefine, issue.H{`name`: name}))
 	}
